@@ -6,7 +6,10 @@ package gosym
 
 import (
 	"fmt"
+	"os"
+	"runtime"
 	"sort"
+	"strings"
 	"time"
 
 	"verif/engine/sym"
@@ -247,6 +250,7 @@ func (p *Path) Branch(c *sym.Term) bool {
 	p.countDecision()
 	switch {
 	case ft && ff:
+		forkLog("branch")
 		alt := append(append([]Decision{}, p.prefix...), Decision{Kind: 'b', Taken: false})
 		p.ex.work = append(p.ex.work, alt)
 		p.ex.Forks++
@@ -294,6 +298,9 @@ func (p *Path) Choice(n int) int {
 
 // Concretize forks over the feasible values of t (W<=64).
 func (p *Path) Concretize(t *sym.Term, what string) uint64 {
+	if !t.IsConst() {
+		forkLog("concretize " + what)
+	}
 	if t.IsConst() {
 		return t.Val
 	}
@@ -483,4 +490,26 @@ func (p *Path) Observe(name string, t *sym.Term) {
 		p.obsOrder = append(p.obsOrder, name)
 	}
 	p.observe[name] = t
+}
+
+var forkLogN int
+
+// forkLog (developer aid, GOSYM_FORKLOG=1): where the first forks of a run come from.
+func forkLog(what string) {
+	if os.Getenv("GOSYM_FORKLOG") == "" || forkLogN >= 40 {
+		return
+	}
+	forkLogN++
+	var pcs [14]uintptr
+	n := runtime.Callers(2, pcs[:])
+	fs := runtime.CallersFrames(pcs[:n])
+	var names []string
+	for {
+		f, more := fs.Next()
+		names = append(names, fmt.Sprintf("%s:%d", strings.TrimPrefix(f.Function, "verif/engine/gosym."), f.Line))
+		if !more {
+			break
+		}
+	}
+	fmt.Fprintf(os.Stderr, "FORK %s: %s\n", what, strings.Join(names, " < "))
 }
